@@ -1182,6 +1182,7 @@ class BufferedWriter(IndexWriter):
 
         self._make_ram_index()
         self.bufferedcount = 0
+        self._grouping = 0
 
         # Start timer
         if self.period:
@@ -1258,6 +1259,22 @@ class BufferedWriter(IndexWriter):
         self.writer.add_reader(reader)
         self.commit()
 
+    def start_group(self):
+        # Hold the lock for the whole group so that neither a flush nor
+        # another thread's document can come between its members
+        self.lock.acquire()
+        self._grouping += 1
+
+    def end_group(self):
+        if not self._grouping:
+            raise Exception("Unbalanced end_group")
+        self._grouping -= 1
+        try:
+            if not self._grouping and self.bufferedcount >= self.limit:
+                self.commit()
+        finally:
+            self.lock.release()
+
     def add_document(self, **fields):
         with self.lock:
             # Hijack a writer to make the calls into the codec
@@ -1265,7 +1282,7 @@ class BufferedWriter(IndexWriter):
                 w.add_document(**fields)
 
             self.bufferedcount += 1
-            if self.bufferedcount >= self.limit:
+            if self.bufferedcount >= self.limit and not self._grouping:
                 self.commit()
 
     def update_document(self, **fields):
